@@ -529,7 +529,7 @@ def gen_lc(rng: random.Random):
         else:
             s = rng.choice(["nope", "zzz", "setup"])
         reqs.append(s)
-    return {"phases": phases, "requests": reqs}
+    return {"phases": phases, "requests": reqs, "scribble": rng.random() < 0.5}
 
 
 def run_lc(case):
@@ -554,8 +554,12 @@ def run_lc(case):
     for name, sts, lp in case["phases"]:
         before = (str(mgr), mgr.current_state)
         try:
-            mgr.add_phase(name, list(sts), lp)
+            arg = list(sts)
+            mgr.add_phase(name, arg, lp)
             code = 0
+            if case.get("scribble"):
+                # the life cycle must not keep living in the CALLER's list: reuse it as a scratch list afterwards
+                arg.clear(); arg.extend(["scratch_" + str(len(attempts))]); arg.reverse()
             flat += sts
             if lp:
                 loops.append((sts[-1], sts[0]))
